@@ -28,6 +28,9 @@ type VarsCase struct {
 	Ambient map[string]string `json:"ambient"`
 	DotEnv  map[string]string `json:"dotenv"`
 	Nested  bool              `json:"nested"` // run from a nested directory
+	// Split > 0: a task "early" is defined after the first Split variables (and uses only
+	// those), the remaining variables and the task "show" follow it.
+	Split int `json:"split,omitempty"`
 }
 
 var varNames = []string{"AMB_A", "HOME", "LANG", "DOT_B", "BOTH_C", "PLAIN_D", "other", "Mixed_e"}
@@ -77,12 +80,15 @@ func genVars(t *rapid.T) VarsCase {
 		}
 		c.Vars = append(c.Vars, v)
 	}
+	if n > 0 && rapid.Bool().Draw(t, "interleave") {
+		c.Split = rapid.IntRange(1, n).Draw(t, "split")
+	}
 	return c
 }
 
 func (c VarsCase) source() (src string, cmds map[string][2]string) {
 	var b strings.Builder
-	for _, v := range c.Vars {
+	def := func(v VarDef) {
 		switch v.Kind {
 		case "string":
 			fmt.Fprintf(&b, "%s := \"%s\"\n", v.Name, v.Text)
@@ -96,11 +102,27 @@ func (c VarsCase) source() (src string, cmds map[string][2]string) {
 			fmt.Fprintf(&b, "%s := join(%s)\n", v.Name, strings.Join(q, ", "))
 		}
 	}
-	b.WriteString("\ntask show() {\n")
-	for _, v := range c.Vars {
-		fmt.Fprintf(&b, "    printf '%%s' '{{.%s}}'\n", v.Name)
-		fmt.Fprintf(&b, "    printf '%%s' \"$%s\"\n", v.Name)
+	probes := func(vars []VarDef) {
+		for _, v := range vars {
+			fmt.Fprintf(&b, "    printf '%%s' '{{.%s}}'\n", v.Name)
+			fmt.Fprintf(&b, "    printf '%%s' \"$%s\"\n", v.Name)
+		}
 	}
+	for i, v := range c.Vars {
+		if c.Split > 0 && i == c.Split {
+			b.WriteString("\ntask early() {\n")
+			probes(c.Vars[:c.Split])
+			b.WriteString("    echo early\n}\n\n")
+		}
+		def(v)
+	}
+	if c.Split > 0 && c.Split == len(c.Vars) {
+		b.WriteString("\ntask early() {\n")
+		probes(c.Vars[:c.Split])
+		b.WriteString("    echo early\n}\n")
+	}
+	b.WriteString("\ntask show() {\n")
+	probes(c.Vars)
 	if len(c.Vars) >= 2 {
 		fmt.Fprintf(&b, "    echo 'pre {{.%s}} mid {{.%s}}' post $UNSET_VAR 'lit {{.%s}}'\n", c.Vars[0].Name, c.Vars[1].Name, c.Vars[0].Name)
 	}
@@ -153,12 +175,16 @@ func execVars(s *ev.Shard, b *sandbox.Box, c VarsCase) *rp.Fail {
 	}
 	desc := fmt.Sprintf("spokfile:\n%s(ambient %v, .env %v, cwd nested=%v)", src, c.Ambient, c.DotEnv, c.Nested)
 
-	res := b.Run(cwd, env, runTimeout, "--json", "show")
+	request := []string{"show"}
+	if c.Split > 0 {
+		request = []string{"early", "show"}
+	}
+	res := b.Run(cwd, env, runTimeout, append([]string{"--json"}, request...)...)
 	if res.TimedOut {
 		return &rp.Fail{Sig: "harness", Msg: "spok timed out: " + res.Stderr}
 	}
 	if anyFail {
-		for _, args := range [][]string{{"--json", "show"}, {"--vars"}, {"--show"}} {
+		for _, args := range [][]string{append([]string{"--json"}, request...), {"--vars"}, {"--show"}} {
 			r := res
 			if args[0] != "--json" {
 				r = b.Run(cwd, env, runTimeout, args...)
@@ -176,10 +202,38 @@ func execVars(s *ev.Shard, b *sandbox.Box, c VarsCase) *rp.Fail {
 		return &rp.Fail{Sig: "valid-program-rejected", Size: size, Msg: fmt.Sprintf("%s: `spok --json show` failed with status %d: %s", desc, res.Exit, sandbox.Strip(res.Stderr))}
 	}
 	results, ok := parseJSON(res.Stdout)
-	if !ok || len(results) != 1 {
-		return &rp.Fail{Sig: "json-unreadable", Size: size, Msg: fmt.Sprintf("%s: stdout is not one JSON document with one task: %q", desc, res.Stdout)}
+	if !ok || len(results) != len(request) {
+		return &rp.Fail{Sig: "json-unreadable", Size: size, Msg: fmt.Sprintf("%s: stdout is not one JSON document with %d task(s): %q", desc, len(request), res.Stdout)}
 	}
-	cmds := results[0].cmds()
+	var showRes, earlyRes *taskResult
+	for i := range results {
+		switch results[i].Task {
+		case "show":
+			showRes = &results[i]
+		case "early":
+			earlyRes = &results[i]
+		}
+	}
+	if showRes == nil || (c.Split > 0 && earlyRes == nil) {
+		return &rp.Fail{Sig: "json-unreadable", Size: size, Msg: fmt.Sprintf("%s: report lacks a requested task: %q", desc, res.Stdout)}
+	}
+	if c.Split > 0 {
+		// the task defined in the middle sees every variable defined before it
+		ec := earlyRes.cmds()
+		if len(ec) != 2*c.Split+1 {
+			return &rp.Fail{Sig: "command-count", Size: size, Msg: fmt.Sprintf("%s: task early: expected %d command results, got %d", desc, 2*c.Split+1, len(ec))}
+		}
+		for i, v := range c.Vars[:c.Split] {
+			w := want[v.Name]
+			if ec[2*i].Cmd != "printf '%s' '"+w+"'" || ec[2*i].Stdout != w {
+				return &rp.Fail{Sig: "template-substitution", Size: size, Msg: fmt.Sprintf("%s: in task early (defined after %d variables) {{.%s}} should give %q; spok ran %q printing %q", desc, c.Split, v.Name, w, ec[2*i].Cmd, ec[2*i].Stdout)}
+			}
+			if ec[2*i+1].Stdout != w {
+				return &rp.Fail{Sig: "environment-value", Size: size, Msg: fmt.Sprintf("%s: in task early $%s is %q, the spokfile defines %q", desc, v.Name, ec[2*i+1].Stdout, w)}
+			}
+		}
+	}
+	cmds := showRes.cmds()
 	wantN := 2*len(c.Vars) + 1
 	if len(c.Vars) >= 2 {
 		wantN++
@@ -258,6 +312,9 @@ func execVars(s *ev.Shard, b *sandbox.Box, c VarsCase) *rp.Fail {
 		}
 		for _, v := range c.Vars {
 			s.Class("var_" + v.Kind)
+		}
+		if c.Split > 0 {
+			s.Class("task_between_variable_definitions")
 		}
 	}
 	return nil
